@@ -8,84 +8,94 @@ import (
 	"math/big"
 	"sort"
 	"strings"
+	"sync"
 
 	"golang.org/x/tools/go/ssa"
 )
 
 type Oblig struct {
-	Name     string
-	Kind     string
-	Goal     string
-	NAsserts int
-	Pos      string
-	Fn       string
-	Props    []string
-	Text     string // the contract clause text, when there is one
-	Cover    bool   // vacuity cover: expected SAT
+	Name       string
+	Kind       string
+	Goal       string
+	NAsserts   int
+	Pos        string
+	Fn         string
+	Props      []string
+	Text       string // the contract clause text, when there is one
+	Cover      bool   // vacuity cover: expected SAT
 	ExpectFail bool
 	// results
-	Status string // unsat sat unknown timeout error
-	Solver string
-	Ms     int
-	Model  string
-	Extra  []string // extra get-value terms
-	File   string
-	AutoSite bool   // auto-discovered site obligation: a new failing one is a violation
-	Pre    string   // status decided without a solver (dataflow obligations)
-	Replay func(repo string, o *Oblig) (string, bool)
-	Witness string
+	Status           string // unsat sat unknown timeout error
+	Solver           string
+	Ms               int
+	Model            string
+	Extra            []string // extra get-value terms
+	File             string
+	AutoSite         bool   // auto-discovered site obligation: a new failing one is a violation
+	Pre              string // status decided without a solver (dataflow obligations)
+	Replay           func(repo string, o *Oblig) (string, bool)
+	Witness          string
 	WitnessConfirmed bool
+	Subs             []*Oblig
+	FailedSub        string
+	WitTerms         [][2]string
+	ReplayOut        string
 }
 
 // Gen generates verification conditions for one function (plus inlined callees).
 type Gen struct {
-	P        *Program
-	Fn       *ssa.Function
-	FC       *FuncContract
-	BV       bool
-	decls    []string
-	declared map[string]bool
-	asserts  []string
-	Obligs   []*Oblig
-	structs  map[string]string // typeKey -> sort
-	keySort  map[string]string // heap key -> element sort
-	fresh    int
-	tags     map[string]int
-	tagList  []string
-	strlits  map[string]string
-	Notes    []string // imprecision notes
-	noteSeen map[string]bool
-	ufs      map[string]bool
-	axiomsIn map[string]bool
-	useStrLt bool
-	inlineDepth int
-	specDefs map[string]*specDef
-	specBusy map[string]bool
-	Assumptions map[string]bool
-	pkgOf    *types.Package
-	namePrefix string
-	maxVC    int
-	inlineSeq int
-	inlined  map[string]bool
+	P               *Program
+	Fn              *ssa.Function
+	FC              *FuncContract
+	BV              bool
+	decls           []string
+	declared        map[string]bool
+	asserts         []string
+	assertDef       []string
+	assertSyms      [][]string
+	Obligs          []*Oblig
+	structs         map[string]string // typeKey -> sort
+	keySort         map[string]string // heap key -> element sort
+	fresh           int
+	tags            map[string]int
+	tagList         []string
+	strlits         map[string]string
+	Notes           []string // imprecision notes
+	noteSeen        map[string]bool
+	ufs             map[string]bool
+	axiomsIn        map[string]bool
+	useStrLt        bool
+	inlineDepth     int
+	specDefs        map[string]*specDef
+	specBusy        map[string]bool
+	Assumptions     map[string]bool
+	pkgOf           *types.Package
+	namePrefix      string
+	maxVC           int
+	inlineSeq       int
+	inlined         map[string]bool
 	calleeContracts map[string]bool
-	callSeq  int
-	globalCount int
-	obNames  map[string]bool
-	safetyCount map[string]int
-	boxedTags map[int]bool
-	qseq     int
-	usedSpecs map[string]bool
-	pureSeen map[string]bool
-	Label    string
+	callSeq         int
+	globalCount     int
+	obNames         map[string]bool
+	safetyCount     map[string]int
+	boxedTags       map[int]bool
+	qseq            int
+	usedSpecs       map[string]bool
+	pureSeen        map[string]bool
+	Label           string
+	noSlice         bool
+	retGroups       []*retGroup
+	sliceMu         sync.Mutex
 }
 
 type specDef struct {
-	name     string
-	heapKeys []string
-	retSort  string
-	retGT    types.Type
-	retElem  types.Type
-	params   []Val
+	name        string
+	heapKeys    []string
+	retSort     string
+	retGT       types.Type
+	retElem     types.Type
+	params      []Val
 	translating bool
 }
 
@@ -117,6 +127,114 @@ func (g *Gen) assume(s string) {
 		return
 	}
 	g.asserts = append(g.asserts, s)
+	g.assertDef = append(g.assertDef, "")
+}
+
+// assumeDef records an assertion that only constrains the fresh constant c (a definition or a
+// type invariant of c): it is relevant to a goal only if c is.
+func (g *Gen) assumeDef(c string, s string) {
+	if s == "true" || s == "" {
+		return
+	}
+	var keep []string
+	for _, d := range strings.Fields(c) {
+		if g.declared[d] || strings.HasPrefix(d, "*") {
+			keep = append(keep, d)
+		}
+	}
+	g.asserts = append(g.asserts, s)
+	g.assertDef = append(g.assertDef, strings.Join(keep, " "))
+}
+
+func isSymChar(c byte) bool {
+	return c != ' ' && c != '(' && c != ')' && c != '\n' && c != '\t'
+}
+
+// symsOf extracts the declared symbols mentioned in an SMT term.
+func (g *Gen) symsOf(s string) []string {
+	var out []string
+	i := 0
+	for i < len(s) {
+		if !isSymChar(s[i]) {
+			i++
+			continue
+		}
+		j := i
+		for j < len(s) && isSymChar(s[j]) {
+			j++
+		}
+		tok := s[i:j]
+		if g.declared[tok] {
+			out = append(out, tok)
+		}
+		i = j
+	}
+	return out
+}
+
+// sliceFor returns the indices of the assertions (among the first n) relevant to the goal.
+func (g *Gen) sliceFor(goal string, n int) []int {
+	g.sliceMu.Lock()
+	defer g.sliceMu.Unlock()
+	if n > len(g.asserts) {
+		n = len(g.asserts)
+	}
+	for len(g.assertSyms) < len(g.asserts) {
+		g.assertSyms = append(g.assertSyms, g.symsOf(g.asserts[len(g.assertSyms)]))
+	}
+	rel := map[string]bool{}
+	for _, s := range g.symsOf(goal) {
+		rel[s] = true
+	}
+	// symbols used by global declarations (axioms) do not make anything relevant by themselves
+	included := make([]bool, n)
+	for changed := true; changed; {
+		changed = false
+		for i := 0; i < n; i++ {
+			if included[i] {
+				continue
+			}
+			hit := false
+			if d := g.assertDef[i]; d != "" {
+				for _, dd := range strings.Fields(d) {
+					if dd[0] == '*' {
+						for r := range rel {
+							if strings.HasSuffix(r, dd[1:]) {
+								hit = true
+								break
+							}
+						}
+					} else if rel[dd] {
+						hit = true
+					}
+					if hit {
+						break
+					}
+				}
+			} else {
+				for _, s := range g.assertSyms[i] {
+					if rel[s] && !strings.HasPrefix(s, "r!") {
+						hit = true
+						break
+					}
+				}
+			}
+			if hit {
+				included[i] = true
+				changed = true
+				for _, s := range g.assertSyms[i] {
+					rel[s] = true
+				}
+			}
+		}
+	}
+	var idx []int
+	for i := 0; i < n; i++ {
+		if included[i] {
+			idx = append(idx, i)
+		}
+	}
+	return idx
 }
 
 func (g *Gen) decl(s string) { g.decls = append(g.decls, s) }
@@ -507,6 +625,9 @@ func (g *Gen) heapMapSort(key string) string {
 	if !ok {
 		panic("heap key without sort: " + key)
 	}
+	if strings.HasPrefix(key, "L|") {
+		return es
+	}
 	if strings.HasPrefix(key, "E|") {
 		return fmt.Sprintf("(Array Ptr (Array %s %s))", g.idxSort(), es)
 	}
@@ -544,7 +665,7 @@ func (h *HeapState) get(key string) string {
 		} else {
 			v = h.g.freshConst("m_"+key, h.g.heapMapSort(key))
 			for i, pv := range vals {
-				h.g.assume(implies(h.conds[i], eq(v, pv)))
+				h.g.assumeDef(v, implies(h.conds[i], eq(v, pv)))
 			}
 		}
 	case h.parent != nil:
@@ -554,6 +675,19 @@ func (h *HeapState) get(key string) string {
 	}
 	h.cache[key] = v
 	return v
+}
+
+// havocEpoch returns the epoch name of the nearest havoc node (used to tie callee postconditions to the maps they constrain).
+func (h *HeapState) havocEpoch() string {
+	for x := h; x != nil; x = x.parent {
+		if x.hv != nil || (x.parent == nil && x.preds == nil) {
+			return x.epoch
+		}
+		if x.preds != nil {
+			return ""
+		}
+	}
+	return ""
 }
 
 func (h *HeapState) set(key, term string) {
@@ -575,7 +709,7 @@ func (h *HeapState) havoc(ms *ModSet, why string) *HeapState {
 	}
 	// the allocation watermark only grows
 	a := g.freshConst("alloc", "Int")
-	g.assume(app("<=", h.get("$alloc"), a))
+	g.assumeDef(a, app("<=", h.get("$alloc"), a))
 	c := n.child()
 	c.set("$alloc", a)
 	return c
